@@ -868,6 +868,12 @@ V("C20", "benign-mac-padding-helper", I,
   [("def net_if_addrs():", "def _pad_mac(mac, sep):\n    while mac.count(sep) < 5:\n        mac = mac + f\"{sep}00\"\n    return mac\n\n\ndef net_if_addrs():"),
    ("            while addr.count(separator) < 5:\n                addr += f\"{separator}00\"",
     "            addr = _pad_mac(addr, separator)")], "silent")
+V("C19", "benign-threshold-helper", L,
+  [("def sensors_temperatures():", "def _mdeg(value):\n    if value is None:\n        return None\n    try:\n        return float(value) / 1000.0\n    except ValueError:\n        return None\n\n\ndef sensors_temperatures():"),
+   ("        if high is not None:\n            try:\n                high = float(high) / 1000.0\n            except ValueError:\n                high = None\n        if critical is not None:\n            try:\n                critical = float(critical) / 1000.0\n            except ValueError:\n                critical = None\n", "        high = _mdeg(high)\n        critical = _mdeg(critical)\n")], "silent")
+V("C19", "threshold-helper-no-handler", L,
+  [("def sensors_temperatures():", "def _mdeg(value):\n    if value is None:\n        return None\n    return float(value) / 1000.0\n\n\ndef sensors_temperatures():"),
+   ("        if high is not None:\n            try:\n                high = float(high) / 1000.0\n            except ValueError:\n                high = None\n        if critical is not None:\n            try:\n                critical = float(critical) / 1000.0\n            except ValueError:\n                critical = None\n", "        high = _mdeg(high)\n        critical = _mdeg(critical)\n")], "fires:C19.R5")
 # ----------------------------------------------------------------- C17
 UC = "psutil/arch/linux/users.c"
 PC = "psutil/arch/linux/proc.c"
@@ -1361,3 +1367,34 @@ V("C20", "sunos-cwd-absorbs-denial", "psutil/_pssunos.py",
   ("            return os.readlink(f\"{procfs_path}/{self.pid}/path/cwd\")\n        except FileNotFoundError:",
    "            return os.readlink(f\"{procfs_path}/{self.pid}/path/cwd\")\n        except OSError:"),
   "fires:C20.R2")
+
+
+# ----------------------------------------------------------------- corpus
+# The seeded breakages (/verif/seeded: written by agents that saw only the property
+# text) and the behaviour-preserving refactorings (/verif/benign) are variants too:
+# a seed must be reported by every check that reported it when it was evaluated
+# (result.json), a refactoring must leave its own property's check silent.
+def _corpus():
+    import glob as _glob
+    import json as _json
+    import os as _os
+    root = _os.path.dirname(_os.path.dirname(_os.path.abspath(__file__)))
+    for d in sorted(_glob.glob(_os.path.join(root, "seeded", "C*-*"))):
+        try:
+            res = _json.load(open(_os.path.join(d, "result.json")))
+        except (OSError, ValueError):
+            continue
+        for prop, info in sorted((res.get("checks_fired") or {}).items()):
+            rules = info.get("rules") if isinstance(info, dict) else info
+            if not rules:
+                continue
+            VARIANTS.append(dict(prop=prop, name="seed-" + _os.path.basename(d), file=None, edits=[],
+                                 patch=_os.path.join(d, "patch.diff"), expect="fires:" + rules[0]))
+    for d in sorted(_glob.glob(_os.path.join(root, "benign", "C*-*"))):
+        if _os.path.exists(_os.path.join(d, "patch.diff")):
+            b = _os.path.basename(d)
+            VARIANTS.append(dict(prop=b.split("-")[0], name="refactoring-" + b, file=None, edits=[],
+                                 patch=_os.path.join(d, "patch.diff"), expect="silent"))
+
+
+_corpus()
